@@ -152,7 +152,7 @@ type SourceIndex struct {
 	Paragraph
 
 	Package  string
-	Binaries []string `control:"Binary" delim:"," strip:" "`
+	Binaries []string `control:"Binary" delim:"," strip:"\n\r\t "`
 
 	Version    version.Version
 	Maintainer string
@@ -160,7 +160,7 @@ type SourceIndex struct {
 
 	Architecture []dependency.Arch
 
-	StandardsVersion string
+	StandardsVersion string `control:"Standards-Version"`
 	Format           string
 	Files            []MD5FileHash    `delim:"\n" strip:"\n\r\t "`
 	VcsBrowser       string           `control:"Vcs-Browser"`
